@@ -3,6 +3,7 @@ package os
 import (
 	"os"
 	"path/filepath"
+	"sort"
 	"strings"
 	"time"
 )
@@ -253,6 +254,9 @@ func (fs *MockFS) ReadDir(name string) ([]DirEntry, error) {
 			entries = append(entries, &mockDirEntry{info: fileInfo})
 		}
 	}
+	// Like os.ReadDir, return the entries sorted by filename rather than in
+	// map iteration order.
+	sort.Slice(entries, func(i, j int) bool { return entries[i].Name() < entries[j].Name() })
 	return entries, nil
 }
 
